@@ -186,6 +186,13 @@ func c10Files(tier string) []IFile {
 		IFile{Name: "keyfmt:upper-noprefix+dup", Meta: "ok", Entries: []IEntry{{Key: 0, KeyFmt: "upper-noprefix", Blocks: []string{"12"}}, {Key: 0, Atts: [][2]string{{"6", "12"}}}}},
 		IFile{Name: "many-atts", Meta: "ok", Entries: []IEntry{{Key: 0, Atts: [][2]string{{"1", "2"}, {"8", "9"}, {"2", "13"}, {"3", "4"}}, Blocks: []string{"1", "11", "2"}}}},
 		IFile{Name: "only-B", Meta: "ok", Entries: []IEntry{bEntry}},
+		// The lowest legal values (slot 0, the genesis attestation 0->0, source 0).
+		IFile{Name: "zero:block0", Meta: "ok", Entries: []IEntry{{Key: 0, Blocks: []string{"0"}}}},
+		IFile{Name: "zero:att0-0", Meta: "ok", Entries: []IEntry{{Key: 0, Atts: [][2]string{{"0", "0"}}}}},
+		IFile{Name: "zero:att0-5", Meta: "ok", Entries: []IEntry{{Key: 0, Atts: [][2]string{{"0", "5"}}}}},
+		IFile{Name: "zero:block0+att0-5", Meta: "ok", Entries: []IEntry{{Key: 0, Blocks: []string{"0"}, Atts: [][2]string{{"0", "5"}}}}},
+		IFile{Name: "zero:block0+att0-0+B", Meta: "ok", Entries: []IEntry{bEntry, {Key: 0, Blocks: []string{"0"}, Atts: [][2]string{{"0", "0"}}}}},
+		IFile{Name: "zero:block7+att0-0", Meta: "ok", Entries: []IEntry{{Key: 0, Blocks: []string{"7"}, Atts: [][2]string{{"0", "0"}}}}},
 	)
 	// Wrong metadata.
 	full := []IEntry{{Key: 0, Blocks: []string{"12"}, Atts: [][2]string{{"6", "12"}}}, bEntry}
